@@ -36,7 +36,7 @@ MANIFEST = {
 HELPERS = ['ArrayHelpers.py', 'BaseValue.py', 'ByteArray.py', 'Ordered.py', 'Transforms.py', 'ripemd160.py']
 GENERATOR_PYTHON = '/usr/bin/python3'      # the CLI needs yaml, which only the Debian interpreter has
 PACKAGE = 'symbolchain_gen'
-WORKERS = 5
+WORKERS = {'quick': 5, 'thorough': 8}
 PROBE_BASE = 100000
 
 
@@ -46,16 +46,19 @@ def generator_env():
 	return env
 
 
-def run_generator(schema_path, output):
+def run_generator(schema_path, output, hash_seed='0'):
 	"""The real CLI + generator in a subprocess; returns (status, output text)."""
+	env = generator_env()
+	env['PYTHONHASHSEED'] = hash_seed
 	return common.run(
 		[GENERATOR_PYTHON, '-m', 'catparser', '--schema', str(schema_path), '--include', str(schema_path.parent), '--output', str(output),
-			'--quiet', '--generator', 'generator.Generator'], 120, env=generator_env())
+			'--quiet', '--generator', 'generator.Generator'], 120, env=env)
 
 
 def generate_twice(schema_path, scratch, tag):
-	first = run_generator(schema_path, scratch / f'out_{tag}_a')
-	second = run_generator(schema_path, scratch / f'out_{tag}_b')
+	"""Two independent runs; the second under a different string-hash seed so that an iteration over a set/dict of names would show."""
+	first = run_generator(schema_path, scratch / f'out_{tag}_a', '0')
+	second = run_generator(schema_path, scratch / f'out_{tag}_b', '4242')
 	return first, second
 
 
@@ -80,16 +83,20 @@ def robust_coq_eval(imports, exprs, tag, shard=50, timeout=900):
 	"""common.coq_eval, except that a case on which the MODEL exhausts its resources (a mutated count makes read_array_go recurse tens of
 	thousands of frames: vm stack overflow / minutes of evaluation) yields the outcome 'crash:OutOfFuel' (run_network's exhausted class)
 	instead of aborting the run.  Only the shard that failed is re-evaluated case by case."""
+	def discard(name):
+		shutil.rmtree(common.COQ / 'Cases' / f'{name}_{os.getpid()}', ignore_errors=True)      # coq_eval keeps the directory of a failed evaluation
+
 	try:
 		return common.coq_eval(imports, exprs, tag, shard=shard, timeout=timeout)
 	except RuntimeError:
-		pass
+		discard(tag)
 
 	def one(job):
 		position, chunk = job
 		try:
 			return common.coq_eval(imports, chunk, f'{tag}r{position}', shard=len(chunk), timeout=120)
 		except RuntimeError:
+			discard(f'{tag}r{position}')
 			return None
 	chunks = [(position, exprs[position:position + shard]) for position in range(0, len(exprs), shard)]
 	with concurrent.futures.ThreadPoolExecutor(max_workers=4) as pool:
@@ -315,7 +322,7 @@ def run(check, unrecognised):
 		for job, outputs in zip(jobs, generated):
 			job.append(outputs)
 		_JOB_CONTEXT.update({'tier': check.tier, 'scratch': scratch, 'package': package, 'per_class': per_class, 'mutants': mutants})
-		workers = int(os.environ.get('VERIF_C15_WORKERS', WORKERS))
+		workers = int(os.environ.get('VERIF_C15_WORKERS', WORKERS[check.tier]))
 		if workers > 1:
 			with multiprocessing.get_context('fork').Pool(workers) as pool:
 				results = pool.map(_work, jobs, chunksize=1)
